@@ -372,3 +372,26 @@ pub fn run_check(check: &dyn Check, tier: Tier) -> i32 {
     }
     0
 }
+
+/// Inputs produced by a libFuzzer campaign (fuzz/run.sh): every artifact (crash / oom / timeout
+/// reproducer) and up to `max_corpus` files of the grown corpora, in file-name order. The
+/// campaign's own verdict is never used: callers re-run each input through their isolated oracle.
+pub fn fuzz_inputs(target: &str, max_corpus: usize) -> Vec<(String, Vec<u8>)> {
+    let base = out_dir().join("fuzz").join(target);
+    let mut out = Vec::new();
+    let mut list = |dir: &str, cap: usize| {
+        let mut files: Vec<PathBuf> = std::fs::read_dir(base.join(dir))
+            .map(|rd| rd.filter_map(Result::ok).map(|e| e.path()).filter(|p| p.is_file()).collect())
+            .unwrap_or_default();
+        files.sort();
+        for f in files.into_iter().take(cap) {
+            if let Ok(b) = std::fs::read(&f) {
+                out.push((format!("{dir}/{}", f.file_name().unwrap_or_default().to_string_lossy()), b));
+            }
+        }
+    };
+    list("artifacts", usize::MAX);
+    list("corpus", max_corpus);
+    list("empty", max_corpus);
+    out
+}
